@@ -432,6 +432,8 @@ SYSTEMATIC_STACKS = [
     ("depth0-3d", (1, 2, 2, 3), [("conv", dict(K=2, depth=0, rf=(1, 2, 2))), ("flatten",), ("gs", 1)]),
     ("depth0-then-depth1", (1, 3, 3), [("conv", dict(K=2, depth=0, rf=2)), ("conv", dict(K=2, depth=1, rf=2)), ("flatten",), ("dense", 4), ("gs", 2)]),
     ("depth3-conv", (1, 3, 3), [("conv", dict(K=1, depth=3, rf=3, pad=1, stride=2)), ("flatten",), ("gs", 1)]),
+    ("chan3-pad1-depth2", (3, 2, 2), [("conv", dict(K=2, depth=2, rf=2, pad=1)), ("flatten",), ("gs", 2)]),
+    ("conv3d-chan2-depth2", (2, 2, 2, 2), [("conv", dict(K=2, depth=2, rf=2)), ("flatten",), ("gs", 2)]),
     ("pool3d-k3-s2-p1", (1, 2, 3, 2), [("conv", dict(K=1, depth=1, rf=1, identity=True)), ("pool", dict(k=3, s=2, p=1)), ("flatten",), ("gs", 1)]),
 ]
 
